@@ -668,6 +668,11 @@ func (c *cmafIngester) sendMediaSegment(ctx context.Context, wg *sync.WaitGroup,
 			return
 		}
 	}
+	if code != 0 {
+		// A statuscode_ pattern applies to this segment. Nothing has been written, so there is nothing to send.
+		c.log.Info("segment not sent because of configured status code", "path", segPath, "code", code)
+		return
+	}
 	if !c.useChunked {
 		// Write should have written everything to a c.buffer
 		req, err := http.NewRequestWithContext(ctx, "PUT", u, src.buffer)
